@@ -72,6 +72,10 @@ def check(run):
     # the same projects inside a namespace
     loadfam.replay_load(run, loadfam.namespaced(cases), "Trace_Fallback", "Trace_Fallback.cfg", tag="_ns",
                         key_of=lambda c, r: "namespaced;inh=%s;%s" % (sorted(c["abs"]["inh"].items()), sorted(r["tags"])[0]))
+    # the library built with `suppress_key_warnings`: which diagnostics are silenced must not change where a value comes from
+    loadfam.replay_load(run, [dict(c) for c in cases], "Trace_Fallback", "Trace_Fallback.cfg", build_features=("json", "suppress"),
+                        variant="json-suppress", tag="_suppress",
+                        key_of=lambda c, r: "suppress;inh=%s;%s" % (sorted(c["abs"]["inh"].items()), sorted(r["tags"])[0]))
     run.notes["l2_render_events"] = run_l2(run, cases, 6 if run.tier == "quick" else 60)
     run.exhaustive = True
     run.assumptions = ["L2: a seeded sample of the projects (inherits maps with at least two entries) is compiled with load_locales!() and td_string! (td! on a subset) is executed "
